@@ -19,7 +19,7 @@ CASE_TIMEOUT = {"quick": 40, "thorough": 120}
 
 
 def ann(t):
-    return codec.annotation(t, 0)
+    return codec.annotation(t, 1)
 
 
 CALLEES = [
@@ -40,6 +40,19 @@ CALLEES = [
     ("h", [("a", "Qint2"), ("b", "Qint2")], "Qint2", "return a & ~b"),
     ("h", [("a", "bool"), ("b", "bool"), ("c", "bool")], "bool", "return (a and b) or (b and c) or (a and c)"),
     ("max3", [("x", "Qint2"), ("y", "Qint2")], "Qint2", "return x if x > y else y"),
+    # wide returns: more than ten return bits / tuple elements at one index level
+    ("w", [("x", "Qint12")], "Qint12", "return x << 1"),
+    ("w", [("x", "Qint8")], "Qint16", "return x * 3"),
+    ("w", [("x", "Qint6"), ("y", "Qint6")], "Qint12", "return x * y"),
+    ("w", [("x", "Qint4"), ("y", "bool")], ["bool"] * 12, "return (x[0], x[1], x[2], x[3], y, not y, x[0] ^ y, x[1] & y, x[2] | y, x[3], not x[0], x[1] ^ x[2])"),
+    ("w", [("x", "Qint2"), ("y", "Qint2")], ["Qint2"] * 11, "return (x, y, x + y, x ^ y, x & y, x | y, x + 1, y + 1, x - y, y - x, x)"),
+    # callees that reassign their own parameters / use statements
+    ("g", [("x", "Qint2"), ("y", "bool")], "Qint2", "x = (x + 1) if y else x\n    c = x + 1\n    return c"),
+    ("g", [("x", "Qint2"), ("y", "Qint2")], "Qint2", "x = x + y\n    y = y + x\n    return x ^ y"),
+    ("g", [("x", "bool"), ("y", "bool")], "bool", "x = x ^ y\n    y = x and y\n    return x or y"),
+    ("g", [("x", "Qint2")], "Qint2", "x += 1\n    x += x\n    return x"),
+    ("g", [("x", "Qint2"), ("y", "bool")], "Qint2", "if y:\n        x = x + 1\n    else:\n        x = x ^ 1\n    return x"),
+    ("g", [("x", ["Qint2", "Qint2"])], "Qint2", "s = 0\n    for e in x:\n        s += e\n    return s"),
 ]
 
 
